@@ -1269,9 +1269,14 @@ class Engine:
                     fr.regs[dst] = [0, 0, 0, 0]
                 elif "xgetbv" in text:
                     fr.regs[dst] = [0, 0]
-                elif text.strip('"') == "":
+                elif text.strip('"') == "" or (text.strip('"').startswith("/*") and text.strip('"').endswith("*/")):
+                    # empty / comment-only asm: an optimisation barrier (core::hint::black_box and friends).
+                    # With a result it returns its (tied) input operand unchanged.
                     if dst is not None:
-                        raise PathEnd("unsupported", "inline asm with result")
+                        vals = [self.val(st, fr, at, ac) for at, ac in args]
+                        if len(vals) != 1:
+                            raise PathEnd("unsupported", "barrier asm with %d operands" % len(vals))
+                        fr.regs[dst] = vals[0]
                 else:
                     raise PathEnd("unsupported", "inline asm %s" % text[:60])
                 if normal is not None:
